@@ -71,6 +71,16 @@ fn run_one(rec: &Value) -> Value {
         match mode.as_str() {
             "compile" => {
                 let mut c = Compiler::new(cfg);
+                if let Some(pyc) = rec["pyc"].as_str() {
+                    // compile and write the .pyc (for the target of the default interpreter)
+                    return match c.compile(src.clone(), "exec") {
+                        Ok(art) => match art.object.dump_as_pyc(pyc, c.cfg.py_magic_num) {
+                            Ok(()) => json!({"ok": true, "errors": [], "nwarns": art.warns.len()}),
+                            Err(e) => json!({"ok": false, "errors": [], "dump_error": e.to_string()}),
+                        },
+                        Err(art) => json!({"ok": false, "errors": errs_json(&art.errors, render), "nwarns": art.warns.len()}),
+                    };
+                }
                 match c.compile(src.clone(), "exec") {
                     Ok(art) => json!({"ok": true, "errors": [], "nwarns": art.warns.len()}),
                     Err(art) => json!({"ok": false, "errors": errs_json(&art.errors, render), "nwarns": art.warns.len()}),
